@@ -45,7 +45,7 @@ prop("C22",
      residual="printing of A1/R1C1 addresses (format!) and sheet-name quoting read back by the lexer are string code outside Verus' reach")
 
 prop("C11",
-     units=["colcodec", "fmtpanic", "lexpanic", "refparse", "fmtlex", "cursor", "f4", "dates", "argidx", "lexerr", "numparse"],
+     units=["colcodec", "fmtpanic", "lexpanic", "refparse", "fmtlex", "cursor", "f4", "dates", "argidx", "lexerr", "numparse", "lexnum"],
      scans=["chrono-panicking-ops"],
      level="proof",
      claim="no panic (overflow, index, unwrap, division) in the listed text-consuming functions for ANY input string",
@@ -214,9 +214,10 @@ prop("C17",
 
 
 prop("C16",
-     units=["movearms", "cutcf", "refshift", "separators", "errprint"],
+     units=["movearms", "cutcf", "refshift", "separators", "errprint", "parensmoved"],
      level="proof",
-     claim="the moved formula is printed with the separators (arguments, LAMBDA parameters, array rows and elements) and the error names that the parser of the active "
+     claim="the moved formula keeps its structure: every operator arm of to_string_moved wraps an operand whose operator binds looser than the grammar level the parser "
+           "reads it at (unit parensmoved; one listed known finding: a+(b+c) is printed a+b+c); it is printed with the separators (arguments, LAMBDA parameters, array rows and elements) and the error names that the parser of the active "
            "locale / language reads back as the same tokens (units separators, errprint); cut: in a moved formula a reference whose target lies in the cut area is displaced by the move and a range only if BOTH corners lie inside it, "
            "everything else keeps its coordinates (and is qualified with the source sheet when the formula changes sheet); conditional-format ranges follow the same "
            "both-corners rule; copy: the copied formula is parsed in the source cell's context and printed in the target cell's context, so relative references shift by the "
@@ -292,6 +293,23 @@ prop("C10",
                   "D5: Model/Workbook/Worksheet shells with the touched fields, the stored formulas / names, and an opaque rest"],
      residual="that a formula typed in one language, shown in another and re-entered is the same formula (printer/parser round trip: string code); which values may "
               "change with the locale; UserModel-level language switch")
+
+
+prop("C09",
+     units=["parens", "parensmoved", "separators", "errprint"],
+     level="proof",
+     claim="slice (the printer's side of the round trip, arm by arm, verbatim code): for every operator node — comparison, &, + -, * /, ^, unary minus, %, range ':', '@', '#' — the arm "
+           "of stringify (display form in every language/locale, stored R1C1 form, xlsx form) and of to_string_moved (cut and paste) prints an operand in parentheses whenever "
+           "the operand's outermost operator binds looser than the grammar level at which the parser reads an operand in that position (precedence(node) is proved equal to the "
+           "level table; stringify_operand / to_string_moved_operand wrap exactly when precedence < level), so the text parses back to the same tree at that node; the separators "
+           "between arguments / array rows / array elements are lexed as the tokens the parser expects (separators) and error literals are printed in the language given (errprint). "
+           "One listed known finding: a+(b+c) is printed a+b+c (required by the suite's test correct_parenthesis; =1E16+(-1E16+1) is 0 when typed, 1 after print and re-read)",
+     assumptions=["the grammar levels (1 comparison .. 9 primary) are those of the parser's descent parse_expr > parse_concat > parse_term > parse_factor > parse_prod > parse_power > "
+                  "parse_range > parse_implicit > parse_primary, read from that chain; the parser itself is not under contract",
+                  "format! is read, per format string used by the arms, as a shim recording the structure of the text (local macro in the unit file); the characters printed for "
+                  "an operator are not specified", "what a child prints is T::Of(child) (the recursive call is a stub)"],
+     residual="the parser (that it implements the levels), leaves (numbers, strings with quotes, references: units refshift / colcodec / quoting under C22), function-call and LAMBDA/LET "
+              "argument lists beyond their separators, arrays beyond their separators, RangeKind printed to the right of ':' (B1:(B2:B3), listed), the xlsx-specific prefixes")
 
 
 def evidence(pid, tier, seed, results, scan_results, kani_results, violations, known_hits, undecided, wall):
